@@ -237,6 +237,12 @@ func (s *Session) startPoolFill(host *HostInfo) {
 	// we let the pool call handleNodeConnected to change the host state
 	s.pool.addHost(host)
 	s.policy.AddHost(host)
+	// a ring refresh may have removed the host while it was being added (an UP event racing the
+	// refresh that follows the node's removal): do not leave it in the pool and the policy
+	if s.ring.getHost(host.HostID()) == nil {
+		s.policy.RemoveHost(host)
+		s.pool.removeHost(host.HostID())
+	}
 }
 
 func (s *Session) handleNodeConnected(host *HostInfo) {
